@@ -212,6 +212,7 @@ int32_t psHkdfExpandLabel(psPool_t *pool,
     vector_data = psDynBufDetachPsSize(&labelBuf, &vector_data_len);
     if (vector_data == NULL)
     {
+        psDynBufUninit(&hkdfLabelBuf);
         return PS_MEM_FAIL;
     }
     rc = psDynBufAppendTlsVector(&hkdfLabelBuf,
@@ -220,6 +221,7 @@ int32_t psHkdfExpandLabel(psPool_t *pool,
     psFree(vector_data, pool);
     if (rc < 0)
     {
+        psDynBufUninit(&hkdfLabelBuf);
         return rc;
     }
     psDynBufUninit(&labelBuf);
@@ -230,6 +232,7 @@ int32_t psHkdfExpandLabel(psPool_t *pool,
     vector_data = psDynBufDetachPsSize(&contextBuf, &vector_data_len);
     if (vector_data == NULL)
     {
+        psDynBufUninit(&hkdfLabelBuf);
         return PS_MEM_FAIL;
     }
     rc = psDynBufAppendTlsVector(&hkdfLabelBuf,
@@ -238,6 +241,7 @@ int32_t psHkdfExpandLabel(psPool_t *pool,
     psFree(vector_data, pool);
     if (rc < 0)
     {
+        psDynBufUninit(&hkdfLabelBuf);
         return rc;
     }
     psDynBufUninit(&contextBuf);
